@@ -8,6 +8,7 @@ normal form the translation's equations have the LDL_f semantics as their only s
 -/
 import TelProofs.DelUnique
 import TelProofs.DelDocEq
+import TelProofs.DelNecessity
 
 namespace TelProofs.C05
 open TelSpec TelModel TelProofs
@@ -48,6 +49,16 @@ theorem C05_value (s : DForm) (hg : GoodD s) (hn : s.normal = true) :
   intro h tr lv v S sys k hS
   rw [TelProofs.del_unique sys f (hd hn) k hS]
   exact hs h tr lv k (sys.bound _ _ hS)
+
+/-- The normal form is needed: for `<(a?)*> b` (iteration over a test) at horizon 1 on the trace `{a},{}` the equations the
+    code writes have two solutions, one of them different from the LDL_f value.  The implementation shows exactly this
+    (two answer sets for that trace; `excluded_point` in tools/props/c05.py), and the README demands the normal form. -/
+theorem normal_form_necessary :
+    ∃ (f : BForm) (h : Nat) (t : Trace) (lv : Int → Bool) (w : BForm → Nat → Bool) (T : BForm → Nat → Prop),
+      Sys h t lv w T ∧ T f 0 ∧ w f 0 ≠ f.sem h t lv 0 ∧
+      (∀ g k, T g k → g.sem h t lv k = (eqn h g k).eval t lv (fun g j => g.sem h t lv j)) :=
+  ⟨DelNecessity.F, 1, DelNecessity.tr, fun _ => false, DelNecessity.v, DelNecessity.S, DelNecessity.second_solution,
+    by simp [DelNecessity.S], by decide, DelNecessity.first_solution⟩
 
 /-! ### non-vacuity -/
 
